@@ -1,10 +1,7 @@
 (* C11 Qualifier collection behaves as a case-insensitive sorted map *)
 Load "coq/props/Hdr".
 From PM Require Import Quals2 Quals3 Quals4 Quals5 Final Exec.
-Lemma src_rt : rt_ok cfg. Proof. apply conds_rt_ok. vm_compute. reflexivity. Qed.
-Lemma src_tbl : tbl_ok cfg. Proof. apply conds_tbl_ok. vm_compute. reflexivity. Qed.
-Lemma src_cfg_ok : cfg_ok cfg. Proof. exact (rt_cfg _ src_rt). Qed.
-Ltac sc := sidecond_with src_rt src_tbl.
+Lemma src_cfg_ok : cfg_ok cfg. Proof. sc. Qed.
 Theorem C11_reachable_invariant : forall (ops : list qop) q, QInv cfg q -> QInv cfg (fold_left (qstep cfg) ops q).
 Proof. apply C11_reachable; sc. Qed.
 Print Assumptions C11_reachable_invariant.
